@@ -776,3 +776,58 @@ def check_stale_order_all(ctx: CheckContext, p, r: Resolver, rule: str = "DERIVE
                 continue
             n += check_stale_order(ctx, r, ci, rule)
     return n
+
+
+# ------------------------------------------------------------------------------ DERIVED-SIB: sibling agreement of the base-field setters
+
+def _must_call(ci: ClassInfo, f: FuncInfo, target: str, after_line: int = 0, depth: int = 0) -> bool:
+    """some statement on the straight-line spine of f (not nested in a branch / loop / try) calls self.<target>() - directly or through a
+    helper whose own spine does - after source line `after_line`"""
+    me = self_name(f)
+    if me is None or depth > 3:
+        return False
+    for st in f.node.body:
+        if isinstance(st, (ast.If, ast.For, ast.While, ast.Try, ast.With, ast.FunctionDef, ast.ClassDef)) or st.lineno <= after_line:
+            continue
+        for (callee, _c) in self_calls_in(st, me):
+            if callee == target:
+                return True
+            if callee in ci.methods and callee != f.name and _must_call(ci, ci.methods[callee], target, 0, depth + 1):
+                return True
+    return False
+
+
+def check_setter_siblings(ctx: CheckContext, r: Resolver, ci: ClassInfo, base_props: List[str], rule: str = "DERIVED-SIB") -> int:
+    """Cross-check of siblings: the property setters of the base fields all end in the same full recompute.  A setter that stores the value and
+    then takes another route (no call, or a partial helper that skips a case the recompute handles - the isothermal fix-up, the resistance
+    product) is the deviant one."""
+    ctx.rule(rule, "sibling agreement: every property setter of a base field (temperatures, duty, contribution, film coefficient) calls the class's "
+                   "recompute method on its straight-line spine after storing the value, as the majority of these setters do; a partial helper is not the recompute")
+    recompute = find_recompute(ci)
+    sites = []
+    for pn in base_props:
+        f = ci.setters.get(pn)
+        fld = getter_field(ci, pn)
+        if f is None or fld is None:
+            continue
+        me = self_name(f)
+        if me is None:
+            continue
+        wl = [st.lineno for st in body_nodes(f) if isinstance(st, ast.stmt) for (fl_, how, _n) in field_writes_in_stmt(st, me) if fl_ == fld]
+        top = 0
+        for st in f.node.body:                      # the spine statement that contains the (last) store
+            if wl and st.lineno <= max(wl) <= getattr(st, "end_lineno", st.lineno):
+                top = st.lineno - 1 if not isinstance(st, (ast.If, ast.For, ast.While, ast.Try, ast.With)) else getattr(st, "end_lineno", st.lineno)
+        delegated = not wl and any(c in ci.methods for (c, _x) in self_calls_in(f.node, me))
+        ok = _must_call(ci, f, recompute.name, top if wl else 0)
+        sites.append((pn, f, ok, delegated))
+    good = [s for s in sites if s[2]]
+    if len(sites) < 3 or len(good) * 2 <= len(sites):
+        ctx.abstain(rule, f"{len(good)} of {len(sites)} base-field setters call {recompute.name}() on their spine: no majority convention to compare against")
+        return 0
+    for pn, f, ok, delegated in sites:
+        ctx.ob(rule, f"{ci.name}.{pn}.setter", f"{f.module.relpath}:{f.node.lineno}", ok,
+               "" if ok else f"{ci.name}.{pn} setter does not end in {recompute.name}() although {len(good)} of its {len(sites)} sibling setters do"
+                             + (" (it delegates to a helper that refreshes only part of the derived state)" if delegated or any(True for _ in self_calls_in(f.node, self_name(f))) else "")
+                             + ": derived fields the helper does not recompute (isothermal fix-up of the bounds, CP, the resistance x CP product) stay stale")
+    return len(sites)
